@@ -96,7 +96,18 @@ fn build(case: &str) -> String {
     let link = LINKS.iter().find(|x| x.0 == l).unwrap().1;
     let prefix = if h == "block-ref" || h == "quoted-block-ref" { "" } else { prefix };
     let mut body = host_wrap(&h, &format!("{}{}", prefix, link));
-    body.push_str("\n## last\n\nend\n");
+    // what follows the host block (blocks below the link take part in every position look-up)
+    let tail = case.split('|').find_map(|p| p.strip_prefix("tail=")).unwrap_or("");
+    body.push_str(match tail {
+        "empty-bullet" => "\n-\n",
+        "empty-ordered" => "\n1.\n",
+        "empty-bullet-then-text" => "\n-\n\nend\n",
+        "code" => "\n```\ncode\n```\n",
+        "table" => "\n| a |\n|---|\n| b |\n",
+        "quote" => "\n> quoted\n",
+        "nothing" => "",
+        _ => "\n## last\n\nend\n",
+    });
     if after_crlf {
         body = body.replace('\n', "\r\n");
     }
@@ -205,6 +216,14 @@ impl Engine for C13 {
                     for l in LINKS {
                         for h in HOSTS {
                             emit(&format!("before={}|prefix={}|link={}|host={}|after={}", b.0, p.0, l.0, h, a));
+                        }
+                        // other blocks below the host (one link form, one prefix are enough here)
+                        if l.0 == "reg" && (p.0 == "none" || p.0 == "two-byte") {
+                            for h in HOSTS {
+                                for t in ["empty-bullet", "empty-ordered", "empty-bullet-then-text", "code", "table", "quote", "nothing"] {
+                                    emit(&format!("before={}|prefix={}|link={}|host={}|after={}|tail={}", b.0, p.0, l.0, h, a, t));
+                                }
+                            }
                         }
                     }
                 }
@@ -348,7 +367,15 @@ impl Engine for C13 {
                     push("action-line", "section", format!("line {} is{} a heading line but 'section to list' is{} offered there (kinds {:?}); text {:?}", line, if is_heading { "" } else { " not" }, if offers_section { "" } else { " not" }, kinds, text));
                 }
                 // blank lines inside a (loose) list belong to no block: nothing must be offered there
-                let blank = lines.get(line).map(|l| l.trim().trim_start_matches('>').trim().is_empty()).unwrap_or(true);
+                // a line that holds nothing but a list marker (an empty item) has no content to act on:
+                // like a blank line it is outside the must-offer direction
+                let blank = lines
+                    .get(line)
+                    .map(|l| {
+                        let t = l.trim().trim_start_matches('>').trim();
+                        t.is_empty() || matches!(t, "-" | "*" | "+") || t.strip_suffix('.').or(t.strip_suffix(')')).map(|b| !b.is_empty() && b.chars().all(|c| c.is_ascii_digit())).unwrap_or(false)
+                    })
+                    .unwrap_or(true);
                 if (in_list && !blank && !offers_list) || (!in_list && offers_list) {
                     push("action-line", "list", format!("line {} is{} inside a list but 'change list type' is{} offered there (kinds {:?}); text {:?}", line, if in_list { "" } else { " not" }, if offers_list { "" } else { " not" }, kinds, text));
                 }
